@@ -297,7 +297,6 @@ def run(chk, ctx):
                 'random grids, flags; L3: superposition and re-scaling residuals on the public integrators (constant and time-varying), equilibrium '
                 'constructors, composite models. non-trivial = distinct (clause, d, varying, flags, scale class)')
     chk.unproved = ['"up to round-off": exact invariance is proved for rational arithmetic; float agreement is checked at 1e-9..1e-10',
-                    'the tabulated (array) sweep equals the functional sweep: validated by K (the theorems are about the functional form sweepFn)',
                     'phi-manipulation steps (split/admix/sample) take no scaled parameter — by inspection + L3 on composite models']
     q = tier == 'quick'
     k_dt(chk, ctx, rng, 60 if q else 400)
